@@ -612,6 +612,12 @@ func parseModifies(rest string) ([]ModEntry, bool, error) {
 		case item == "" || item == "nothing":
 		case item == "*":
 			all = true
+		case strings.HasPrefix(item, "bt(") && strings.HasSuffix(item, ")"):
+			x, err := parseSpec(item[3 : len(item)-1])
+			if err != nil {
+				return nil, false, err
+			}
+			out = append(out, ModEntry{Kind: "bt", Obj: x, Src: item})
 		case strings.HasPrefix(item, "ghost "):
 			out = append(out, ModEntry{Kind: "ghost", Field: strings.TrimSpace(item[6:]), Src: item})
 		case strings.HasSuffix(item, "[*]"):
